@@ -7,7 +7,7 @@ def run_case(case):
                          files=case.get('files'), thresh=case.get('thresh'), timeout=case.get('timeout', 10),
                          cap_lines=case.get('cap_lines', 0))
     out = {'outcome': r['outcome'], 'exc': r.get('exc'), 'site': r.get('site'), 'stderr': r['stderr'],
-           'unknowns': r.get('unknowns'), 'trace': r.get('trace')}
+           'unknowns': r.get('unknowns'), 'trace': r.get('trace'), 'hot': r.get('hot')}
     if r['outcome'] == 'ok':
         v = r['value']
         if case.get('multi'):
